@@ -112,8 +112,13 @@ def point_refute(D, facts, cvars, seed=0):
     for e in [D] + list(facts):
         syms |= sp.sympify(e).free_symbols
     others = sorted(syms - set(cvars), key=str)
-    for attempt in range(4):
-        val = {s: sp.Rational(rnd.randint(1, 9), rnd.randint(1, 7)) * (1 if (s.is_positive or rnd.random() < 0.5) else -1) for s in others}
+    primes = [2, 3, 5, 7, 11, 13, 17, 19, 23, 29, 31, 37, 41, 43, 47, 53, 59, 61, 67, 71, 73, 79, 83, 89, 97, 101, 103, 107, 109, 113]
+    zeros = 0
+    for attempt in range(5):
+        val = {}
+        for s in others:          # generic values: ratios of distinct primes (never 0 or 1), sign free unless the symbol is positive
+            p_, q_ = rnd.sample(primes, 2)
+            val[s] = sp.Rational(p_, q_) * (1 if (s.is_positive or rnd.random() < 0.5) else -1)
         if T.PI in val:
             val[T.PI] = sp.Rational(355, 113)
         try:
@@ -128,9 +133,11 @@ def point_refute(D, facts, cvars, seed=0):
                 m.update({str(k): str(x) for k, x in sol[0].items()})
                 return dict(value=str(v), model=m)
             if v.is_number and v == 0:
-                return dict(value="0", model=None)
+                zeros += 1
         except Exception:
             continue
+    if zeros >= 3:
+        return dict(value="0", model=None)
     return None
 
 
@@ -191,7 +198,24 @@ def identity(b, oid, clause, diffs, meta):
         dd = Cx.of(d)
         e = dd.re if dd.im == 0 else complexify(d)
         try:
-            z = sp.cancel(sp.together(e))
+            # refutation first: non-zero at one exact rational point => not an identity (cheap; avoids an expression swell on a broken tree)
+            z = None
+            if e != 0 and not any(isinstance(a_, sp.core.function.AppliedUndef) for a_ in sp.preorder_traversal(e)):
+                import random
+                val = {}
+                for sy_ in e.free_symbols:
+                    rnd_ = random.Random(hash(sy_.name) & 0xffffff)
+                    _pr = [2, 3, 5, 7, 11, 13, 17, 19, 23, 29, 31, 37, 41, 43, 47, 53, 59, 61, 67, 71, 73, 79, 83, 89, 97]
+                    val[sy_] = sp.Rational(*rnd_.sample(_pr, 2)) + (sp.I * sp.Rational(*rnd_.sample(_pr, 2)) if not sy_.is_real else 0)
+                for sy_ in list(val):
+                    if sy_.name.endswith("_conj") and sp.Symbol(sy_.name[:-5]) in val:
+                        val[sy_] = sp.conjugate(val[sp.Symbol(sy_.name[:-5])])
+                v_ = e.xreplace(val)
+                v_ = sp.nsimplify(sp.expand(v_)) if v_.is_number else v_
+                if v_.is_number and v_ != 0 and v_.is_finite:
+                    z = sp.Symbol("nonzero_at_point") * 0 + v_
+            if z is None:
+                z = sp.cancel(sp.together(e))
         except Exception as ex_:
             z = None
             bad = (k, f"normal form failed: {type(ex_).__name__}")
@@ -205,6 +229,11 @@ def identity(b, oid, clause, diffs, meta):
                          decided=dict(verdict="discharged", backend="qqnf-complex", seconds=secs, reason=f"{len(diffs)} complex rational identities cancel to 0 over the atoms Z, conj Z", model=None)))
         return
     k, z = bad
+    if not isinstance(z, str) and z.is_number:
+        b.add(Obligation(oid=oid, fn=KEY, clause=clause, goal=None, meta=dict(meta, failed_clause=(meta.get("clauses") or [None] * (k + 1))[k]),
+                         decided=dict(verdict="refuted", backend="exact-point", seconds=secs, reason=f"clause #{k} ({(meta.get('clauses') or [None] * (k + 1))[k]}): residual = {str(z)[:60]} at an exact rational point",
+                                      model=dict(clause=k, residual=str(z)[:80]))))
+        return
     if isinstance(z, str):
         b.add(Obligation(oid=oid, fn=KEY, clause=clause, goal=None, meta=meta, decided=dict(verdict="undecided", backend="-", seconds=secs, reason=z, model=None)))
         return
